@@ -34,6 +34,8 @@ type Check struct {
 	Determ    determResult
 	NCPU      int
 	GrowIters int
+	Round     int
+	Rounds    []uint64 // seeds of the further rounds (thorough)
 	Novel     []string
 	Grow      growStats
 	Knob      knobStats
@@ -110,7 +112,7 @@ func (c *Check) reference() {
 	corpus = nc
 	c.Corpus = corpus
 	c.CStats.Total = corpus.Len()
-	c.CorpusP = filepath.Join(e.Scratch, "corpus.tsv")
+	c.CorpusP = filepath.Join(e.Scratch, fmt.Sprintf("corpus_%d.tsv", c.Round))
 	must(corpus.Write(c.CorpusP))
 	c.grow()
 	corpus = c.Corpus
@@ -119,9 +121,9 @@ func (c *Check) reference() {
 	var errF, errR error
 	parallel(2, 2, func(i int) {
 		if i == 0 {
-			fwd, errF = refCorpus(e, c.CorpusP, filepath.Join(e.Scratch, "ref_fwd.tsv"), false)
+			fwd, errF = refCorpus(e, c.CorpusP, filepath.Join(e.Scratch, fmt.Sprintf("ref_fwd_%d.tsv", c.Round)), false)
 		} else {
-			rev, errR = refCorpus(e, c.CorpusP, filepath.Join(e.Scratch, "ref_rev.tsv"), true)
+			rev, errR = refCorpus(e, c.CorpusP, filepath.Join(e.Scratch, fmt.Sprintf("ref_rev_%d.tsv", c.Round)), true)
 		}
 	})
 	if errF != nil || errR != nil {
@@ -132,8 +134,8 @@ func (c *Check) reference() {
 		if len(crash) == 0 {
 			// not attributable to one input (a transient failure, or a crash that
 			// needs a history): one more attempt before giving up
-			fwd, errF = refCorpus(e, c.CorpusP, filepath.Join(e.Scratch, "ref_fwd.tsv"), false)
-			rev, errR = refCorpus(e, c.CorpusP, filepath.Join(e.Scratch, "ref_rev.tsv"), true)
+			fwd, errF = refCorpus(e, c.CorpusP, filepath.Join(e.Scratch, fmt.Sprintf("ref_fwd_%d.tsv", c.Round)), false)
+			rev, errR = refCorpus(e, c.CorpusP, filepath.Join(e.Scratch, fmt.Sprintf("ref_rev_%d.tsv", c.Round)), true)
 			if errF != nil || errR != nil {
 				harnessFail("reference evaluator failed but no single input crashes it: %v %v", errF, errR)
 			}
@@ -156,8 +158,8 @@ func (c *Check) reference() {
 			c.CStats.Total = corpus.Len()
 			must(corpus.Write(c.CorpusP))
 			c.Log("excluded %d input(s) that kill the process outright (not recoverable by the caller): %q", len(crash), c.Ref.Crashers)
-			fwd, errF = refCorpus(e, c.CorpusP, filepath.Join(e.Scratch, "ref_fwd.tsv"), false)
-			rev, errR = refCorpus(e, c.CorpusP, filepath.Join(e.Scratch, "ref_rev.tsv"), true)
+			fwd, errF = refCorpus(e, c.CorpusP, filepath.Join(e.Scratch, fmt.Sprintf("ref_fwd_%d.tsv", c.Round)), false)
+			rev, errR = refCorpus(e, c.CorpusP, filepath.Join(e.Scratch, fmt.Sprintf("ref_rev_%d.tsv", c.Round)), true)
 			if errF != nil {
 				harnessFail("%v", errF)
 			}
@@ -383,7 +385,27 @@ func (c *Check) sweepHist() {
 
 // randomSearch: seeded random runs in cold worker processes.
 func (c *Check) randomSearch(firstWorker, procs, runsPer int) {
-	parallel(procs, c.NCPU, func(i int) {
+	soak := 0
+	if firstWorker == 0 {
+		soak = 16 // long-lived soak processes ride along with the first batch
+		if c.Tier == "thorough" {
+			soak = 96
+		}
+	}
+	parallel(procs+soak, c.NCPU, func(i int) {
+		if i >= procs {
+			n := 100000
+			if c.Tier == "thorough" {
+				n = 400000
+			}
+			ses := &workerlib.Session{Mode: "soak", Corpus: c.CorpusP, Seed: c.Seed, Worker: i - procs, Runs: n, NSites: len(c.E.Report.Sites), DistinctPath: c.distinctPath()}
+			pr := runWorker(c.E, ses, 1, 30*time.Minute)
+			if err := procOK(pr); err != nil {
+				harnessFail("soak: %v", err)
+			}
+			c.Agg.add("soak", pr)
+			return
+		}
 		w := firstWorker + i
 		ses := &workerlib.Session{Mode: "rand", Corpus: c.CorpusP, Seed: c.Seed, Worker: w, Runs: runsPer, SyncHeavy: c.SyncSeen,
 			NSites: len(c.E.Report.Sites), DistinctPath: c.distinctPath(), Samples: b2i(w < 3) * 2}
@@ -907,7 +929,7 @@ func (c *Check) weakHashVariant() (equivalent bool) {
 				curVariant = ""
 				if v != nil {
 					prx := &ProcResult{Session: &workerlib.Session{Mode: "explicit", Explicit: session, Variant: "weakhash"}, Violations: []*workerlib.Violation{v}}
-					c.Agg.Violations = append(c.Agg.Violations, &foundViolation{V: v, Proc: prx, Stage: "weak_hash_variant"})
+					c.Agg.Violations = append(c.Agg.Violations, &foundViolation{V: v, Proc: prx, Stage: "weak_hash_variant", C: c})
 					c.Log("weak-hash variant: result of %s(%q) depends on earlier calls (%d-call history)", apiName(a), trunc(c.Corpus.In[i], 40), len(session[0].Tasks[0]))
 					return false
 				}
